@@ -13,7 +13,11 @@ from harness.common import Run, frac
 META = dict(
     technique="Coq theorems (induction over the list of individuals / parameters / columns) on an executable list-codec model of "
               "IndividualParameters written line by line from the source; the model is run inside Coq (vm_compute, exact rationals and "
-              "strings) on the same containers, tables, tensors and paths as the implementation on every run and compared exactly",
+              "strings) on the same containers, tables, tensors and paths as the implementation on every run and compared exactly; "
+              "source-level tie: the decisions of the model (ordered checks of add_individual_parameters with their exception classes, accepted "
+              "scalar types and kind of type test, column-label and label-cut rules, what each conversion iterates, attributes filled by the "
+              "readers) are regenerated from the python ast into coq/gen/GenC16.v, run by an interpreter over named steps and proved equal to "
+              "the hand-written model; the C16 theorems are restated over the regenerated tables",
     level_text="Unbounded theorems on the model: additions with a non-string / duplicate ID, a non-dict, an unsupported scalar or "
                "first-element type, an empty list or a shape dict different from the first entry's are rejected and leave the container "
                "unchanged, well-formed additions are appended; json round trip exact for every shape; tensor round trip keeps IDs, order, "
@@ -21,8 +25,9 @@ META = dict(
                "shapes. The full statement is refuted in the faithful model (scalar parameter -> IndexError, '_' in a name -> merged "
                "parameters, list tail unchecked, numpy scalar -> json TypeError, NA-like ID through csv, empty container) and each witness "
                "is replayed on the code as a known finding.",
-    level_note="Trusted: Coq kernel; the hand-written model (tied by exact vm_compute comparison on generated inputs, not regenerated from "
-               "source); the harness encoders (python object -> Coq literal, float -> exact rational); pandas/json/torch as libraries "
+    level_note="Trusted: Coq kernel; the hand-written model (tied by exact vm_compute comparison on generated inputs; its decisions are also "
+               "regenerated from the source and proved to be the model's (T1), the loop bodies inside the translator's templates and the python "
+               "meaning of one step - bool derives from int, x in list, d[k] = v - are written by hand); the harness encoders (python object -> Coq literal, float -> exact rational); pandas/json/torch as libraries "
                "(csv quoting, dtype unification, float text round trip are observed, not modelled; values are dyadic so float32 and the csv "
                "text are exact); rounding to float32 is an abstract function in the theorems and the identity on the tested values.",
     design_ref="DESIGN.md section 4 C16",
@@ -37,7 +42,7 @@ OBLIGATIONS = [
     "C16_empty_refuted", "C16_save_load_extension",
     # source level (T1): the same statements over the tables regenerated from individual_parameters.py (coq/gen/GenC16.v)
     "C16_src_add_is_model", "C16_src_add_all_is_model", "C16_src_add_rejects_partial", "C16_src_bool_rejected", "C16_src_add_accepts",
-    "C16_src_conversions_are_model", "C16_src_torch_roundtrip", "C16_src_table_roundtrip_partial",
+    "C16_src_conversions_are_model", "C16_src_torch_roundtrip", "C16_src_table_roundtrip_partial", "C16_src_csv_roundtrip_partial",
     "C16_src_scalar_refuted", "C16_src_underscore_refuted", "C16_src_json_roundtrip", "C16_src_load_fills",
 ]
 
@@ -1044,7 +1049,9 @@ def main(run: Run):
         "identifiers and names are printable ASCII (plus TAB); the python type of a number is compared after json only (pandas and torch unify types)",
         "parameter names 'ID' and '' and colliding column labels (x of length >= 2 next to x_0) are outside the model (Unmodelled) and not generated",
     ]
-    run.trusted += ["hand-written model coq/theories/Io/IndivParams.v (tied by exact vm_compute comparison on every run, not regenerated)",
+    run.trusted += ["hand-written model coq/theories/Io/IndivParams.v (tied by exact vm_compute comparison on every run; its decisions - order of the "
+                    "checks, accepted types, exception classes, naming / cut rules, iteration sources, attributes filled by readers - are regenerated "
+                    "from the source into coq/gen/GenC16.v and proved to be the model's)",
                     "harness encoders python object -> Coq literal (harness/props/c16.py), float -> exact rational (float.as_integer_ratio)",
                     "pandas (DataFrame construction, iterrows, to_csv/read_csv quoting and NA handling), json, torch.tensor/tolist, os.path.splitext"]
     run.explanation = ("Theorems (Coq, for every container / name / shape / value) on an executable model written line by line from "
